@@ -37,6 +37,13 @@ type loopEvalCtx struct {
 	entry bool
 }
 
+// the loop whose invariant / measure is being evaluated (for vRangeSeen)
+type loopEvalWhere struct {
+	fr *Frame
+	li *loopInfo
+	st *State
+}
+
 func (e *Engine) loopKey(fr *Frame, li *loopInfo) string {
 	return fmt.Sprintf("%s_%d", harnessSuffix(fr.fn), li.ord)
 }
@@ -86,6 +93,9 @@ func (e *Engine) localByName(fr *Frame, st *State, name string, before token.Pos
 // evalLoopFn evaluates an invariant / measure function on the current values of
 // the variables named by its parameters.
 func (e *Engine) evalLoopFn(fr *Frame, st *State, f *ssa.Function, li *loopInfo) Value {
+	savedWhere := e.loopWhere
+	e.loopWhere = &loopEvalWhere{fr: fr, li: li}
+	defer func() { e.loopWhere = savedWhere }()
 	args := make([]Value, len(f.Params))
 	for i, p := range f.Params {
 		if p.Name() == "rangecount" {
@@ -248,6 +258,11 @@ func (e *Engine) enterLoop(fr *Frame, li *loopInfo, cur *State) *State {
 	e.loopSeq++
 	loopID := e.loopSeq
 	mods := e.loopModifiedMems(fr, li)
+	if rg := loopMapRange(li); rg != nil {
+		if it := fr.iters[rg]; it != nil && it.seen != "" {
+			mods = append(mods, it.seen)
+		}
+	}
 	havocAll, havocHeap := false, false
 	var pats []string
 	{
